@@ -66,8 +66,8 @@ Definition calculate_realloc_chk := calculate_realloc_g sort_checked.
 
 (* ---------- cases of the correspondence check (C33) ---------- *)
 (* the node record, the workload being re-allocated, the raw request, and the
-   distinct answers of repeated CalculateRealloc calls (Go picks the NUMA
-   iteration order afresh each time): None = refused *)
+   distinct answers of repeated CalculateRealloc calls (before /repo 3d8e6c0 Go
+   picked the NUMA iteration order afresh each time): None = refused *)
 Record rcase := mkRCase {
   r_base : Z; r_maxshare : Z; r_whole : bool; (* every core's capacity is exactly the share base *)
   r_info : node_info; r_origin : wres; r_req : wreq;
@@ -83,11 +83,16 @@ Definition answer_eqb (m : outcome (rerr2 + (wres * wres))) (o : option (wres * 
   | _, _ => false
   end.
 
+(* the order GetCPUPlans visits the NUMA nodes in (/repo 3d8e6c0: the nodes
+   holding the origin's cores first, then by id): no oracle is left, so every
+   observed answer must be the model's answer *)
+Definition visit_order (c : rcase) : list string :=
+  numa_visit_order (put_back (r_info c) (r_origin c)) (wr_cpumap (r_origin c)).
+
 Definition agree (c : rcase) : bool :=
-  let orders := perms (numa_nodes (r_info c)) in
-  forallb (fun o => existsb (fun order =>
-      answer_eqb (calculate_realloc_chk (r_info c) (r_base c) (r_maxshare c) (r_origin c) (r_req c) order (fuel_of c)) o)
-    orders) (r_obs c).
+  forallb (fun o =>
+      answer_eqb (calculate_realloc_chk (r_info c) (r_base c) (r_maxshare c) (r_origin c) (r_req c) (visit_order c) (fuel_of c)) o)
+    (r_obs c).
 
 (* boolean reflection of C33: a keep-bind realloc of a bound workload with no
    cpu change, when granted, stays on exactly the cores and the NUMA node *)
